@@ -155,7 +155,18 @@ def mutants(c, g):
     def drop_index(r):
         if r[0] == "Object" and r[2]: return ("Object", r[1], r[2][:-1])
         return r
-    for name, f in (("optionality", flip_optional), ("rest element", drop_rest), ("leaf", change_const), ("index signature", drop_index)):
+    def swap_format_kind(r):
+        # the same format names on the other base type: StringFormat<"short"> accepts "a", NumberFormat<"short"> accepts nothing
+        if r[0] == "StringFmt": return ("NumberFmt", r[1])
+        if r[0] == "NumberFmt": return ("StringFmt", r[1])
+        return r
+    def swap_container(r):
+        if r[0] == "Array": return ("Set", r[1])
+        if r[0] == "Set": return ("Array", r[1])
+        if r[0] == "AllOf" and len(r[1]) >= 2: return ("AnyOf", r[1])
+        return r
+    for name, f in (("optionality", flip_optional), ("rest element", drop_rest), ("leaf", change_const), ("index signature", drop_index),
+                    ("format kind", swap_format_kind), ("container kind", swap_container)):
         nodes = [n for n in rt_nodes(c["rt"])]
         # apply at exactly one node (the first where f changes something, chosen from a random rotation)
         done = [False]
